@@ -23,7 +23,7 @@ def escapeString : Str → Str
   | c :: cs =>
     if c = cBS then
       match cs with
-      | [] => [cBS]                                   -- "\\" + "" : a lone backslash
+      | [] => [cBS, cBS]                              -- a lone backslash at the end is emitted escaped
       | d :: ds => if d = cBQ then cBQ :: escapeString ds else cBS :: d :: escapeString ds
     else if c = cDQ then cBS :: cDQ :: escapeString cs
     else if c = cNL then cBS :: 110 :: escapeString cs
@@ -87,5 +87,99 @@ def udStep (comp : Str) (small contents : List Str) (st : UD) (c : Nat) : UD :=
 
 def uncompressDict (comp : Str) (small contents : List Str) (s : Str) : Str :=
   udFlush comp small (s.foldl (udStep comp small contents) ⟨[], [], false⟩)
+
+end Vy
+
+namespace Vy
+/-! ### CPython's decoding of the body of a (non-raw, non-byte) string literal -/
+
+inductive DecErr | syntax | unmodelled
+  deriving DecidableEq, Repr
+
+def hexVal (c : Nat) : Option Nat :=
+  if 48 ≤ c ∧ c ≤ 57 then some (c - 48)
+  else if 97 ≤ c ∧ c ≤ 102 then some (c - 87)
+  else if 65 ≤ c ∧ c ≤ 70 then some (c - 55)
+  else none
+
+def isOct (c : Nat) : Bool := 48 ≤ c && c ≤ 55
+
+/-- read exactly `k` hex digits -/
+def takeHex : Nat → Str → Nat → Option (Nat × Str)
+  | 0, s, acc => some (acc, s)
+  | k + 1, c :: cs, acc => match hexVal c with
+    | some v => takeHex k cs (16 * acc + v)
+    | none => none
+  | _ + 1, [], _ => none
+
+/-- read up to `k` octal digits -/
+def takeOct : Nat → Str → Nat → Nat × Str
+  | 0, s, acc => (acc, s)
+  | k + 1, c :: cs, acc => if isOct c then takeOct k cs (8 * acc + (c - 48)) else (acc, c :: cs)
+  | _ + 1, [], acc => (acc, [])
+
+theorem takeHex_len : ∀ (k : Nat) (s : Str) (acc v : Nat) (r : Str), takeHex k s acc = some (v, r) → r.length ≤ s.length
+  | 0, s, acc, v, r, h => by simp [takeHex] at h; simp [h.2]
+  | k + 1, [], acc, v, r, h => by simp [takeHex] at h
+  | k + 1, c :: cs, acc, v, r, h => by
+    simp only [takeHex] at h
+    cases hv : hexVal c with
+    | none => simp [hv] at h
+    | some x =>
+      simp only [hv] at h
+      have := takeHex_len k cs _ v r h
+      simp; omega
+
+theorem takeOct_len : ∀ (k : Nat) (s : Str) (acc : Nat), (takeOct k s acc).2.length ≤ s.length
+  | 0, s, acc => by simp [takeOct]
+  | k + 1, [], acc => by simp [takeOct]
+  | k + 1, c :: cs, acc => by
+    simp only [takeOct]
+    split
+    · have := takeOct_len k cs (8 * acc + (c - 48)); simp; omega
+    · simp
+
+/-- decode the text between the quotes of a `"…"` literal.  `fuel` ≥ length suffices. -/
+def pyDecodeF : Nat → Str → Except DecErr Str
+  | 0, _ => .error .unmodelled
+  | _ + 1, [] => .ok []
+  | n + 1, c :: cs =>
+    if c = cDQ ∨ c = cNL then .error .syntax                 -- raw quote / raw newline ends the literal
+    else if c = 13 ∨ c = 0 then .error .unmodelled           -- raw CR / NUL: the tokenizer treats them specially
+    else if c ≠ cBS then (pyDecodeF n cs).map (c :: ·)
+    else match cs with
+      | [] => .error .syntax                                 -- dangling backslash
+      | d :: ds =>
+        if d = cNL then pyDecodeF n ds                       -- line continuation
+        else if d = cBS then (pyDecodeF n ds).map (cBS :: ·)
+        else if d = 39 then (pyDecodeF n ds).map (39 :: ·)
+        else if d = cDQ then (pyDecodeF n ds).map (cDQ :: ·)
+        else if d = 97 then (pyDecodeF n ds).map (7 :: ·)
+        else if d = 98 then (pyDecodeF n ds).map (8 :: ·)
+        else if d = 102 then (pyDecodeF n ds).map (12 :: ·)
+        else if d = 110 then (pyDecodeF n ds).map (10 :: ·)
+        else if d = 114 then (pyDecodeF n ds).map (13 :: ·)
+        else if d = 116 then (pyDecodeF n ds).map (9 :: ·)
+        else if d = 118 then (pyDecodeF n ds).map (11 :: ·)
+        else if isOct d then
+          let (v, r) := takeOct 2 ds (d - 48)
+          if v > 255 then .error .syntax else (pyDecodeF n r).map (v :: ·)
+        else if d = 120 then
+          (match takeHex 2 ds 0 with
+           | some (v, r) => (pyDecodeF n r).map (v :: ·)
+           | none => .error .syntax)
+        else if d = 117 then
+          (match takeHex 4 ds 0 with
+           | some (v, r) => (pyDecodeF n r).map (v :: ·)
+           | none => .error .syntax)
+        else if d = 85 then
+          (match takeHex 8 ds 0 with
+           | some (v, r) => if v > 1114111 then .error .syntax else (pyDecodeF n r).map (v :: ·)
+           | none => .error .syntax)
+        else if d = 78 then .error .unmodelled               -- \N{name}
+        else if d = 13 ∨ d = 0 then .error .unmodelled
+        else (pyDecodeF n ds).map (fun r => cBS :: d :: r)    -- unknown escape: kept (a warning, not an error)
+
+def pyDecode (s : Str) : Except DecErr Str := pyDecodeF (s.length + 1) s
 
 end Vy
